@@ -287,7 +287,7 @@ def gen_change_plan(ch: Chooser, *, faults: bool, restarts: bool, deletes: bool 
 
 
 def segment_cycles(st: common.StorageRef, lst: list[Step], snaps: dict[tuple[Any, Any], dict[str, Any]],
-                   uid: str) -> list[list[Step]]:
+                   uid: str, delete_closes_on_release: bool = False) -> list[list[Step]]:
     """
     Handling cycles of one object: delimited by a change of the detected cause, by a new process for
     resuming, or by a step after which nothing of the operator is pending on the object any more.
@@ -305,7 +305,9 @@ def segment_cycles(st: common.StorageRef, lst: list[Step], snaps: dict[tuple[Any
             cur.append(s)
             view = snaps.get((uid, s.rv))
             state_after = s.writes[-1].after if s.writes else view
-            if ((s.how == 'returned' and (s.calls or s.writes)) or s.writes) and not st.records(state_after):
+            released = (not delete_closes_on_release or s.reason != 'delete' or state_after is None
+                        or not st.has_finalizer(state_after))
+            if ((s.how == 'returned' and (s.calls or s.writes)) or s.writes) and not st.records(state_after) and released:
                 cycles.append(cur)
                 cur = []
         elif s.reason == 'gone':
